@@ -99,13 +99,18 @@ def shards(tier, seed):
     if tier == "quick":
         jobs.append(("randomQ", 84))  # smallest grid with faces so small that a 7-decimal rounding of the cosine law makes their area negative
     nsh = 16 if tier == "quick" else 64
-    jobs.sort(key=lambda t: -t[1])
+    byN = {}
+    for alg, N in jobs:
+        byN.setdefault(N, []).append(alg)
     buckets = [[] for _ in range(nsh)]
     load = [0] * nsh
-    for alg, N in jobs:
+    for N in sorted(byN, reverse=True):     # both algorithms of one N in the same process, alternating order
         k = load.index(min(load))
-        buckets[k].append([alg, N])
-        load[k] += N ** 3 + 50 * N ** 2 + 20000
+        algs = sorted(byN[N])
+        if N % 2:
+            algs = algs[::-1]
+        buckets[k].extend([a, N] for a in algs)
+        load[k] += len(algs) * (N ** 3 + 50 * N ** 2 + 20000)
     out = [{"jobs": b} for b in buckets if b]
     out[-1]["consumers"] = True
     return out
